@@ -20,6 +20,7 @@ structure St where
   ckTab : List String := []
   specFired : Bool := false
   specFr : Option J := none
+  specFrDefined : Bool := true   -- false: the filter fails on the delivered object, the spec is silent
 
 def cks (j : J) : String := j.print
 
@@ -95,13 +96,18 @@ def step (st : St) (toks : List String) : St × String :=
       let sp := Spec.step st.cfg st.known ev id obj
       let (tab, fired) := match r.2 with
         | none => (st.ckTab, "-")
-        | some e => let (t, s) := showEntry st.ckTab e.id e.entry; (t, s!"{e.ev.toString}:{s}")
+        | some e =>
+          if e.ev == WatchEvent.deleted then
+            -- the checksum of a deleted object is not part of the observation
+            (st.ckTab, s!"Deleted:{e.id}@-:fr={showOptJ e.entry.fr}:obj={if e.entry.obj.isSome then 1 else 0}")
+          else let (t, s) := showEntry st.ckTab e.id e.entry; (t, s!"{e.ev.toString}:{s}")
       let (tab, cs) := showCache tab r.1
       let latest := match project st.cfg obj with
-        | none => st.latest
-        | some _ => if ev == .deleted then adel id st.latest else aset id obj st.latest
+        | none => if ev == WatchEvent.deleted then adel id st.latest else st.latest
+        | some _ => if ev == WatchEvent.deleted then adel id st.latest else aset id obj st.latest
       ({ st with cache := r.1, ckTab := tab, known := sp.1, latest := latest, specFired := sp.2,
-                 specFr := if st.cfg.filter.isSome then project st.cfg obj else none },
+                 specFr := if st.cfg.filter.isSome then project st.cfg obj else none,
+                 specFrDefined := (project st.cfg obj).isSome },
        s!"fired={fired} cache={cs}")
     | _, _, _ => (st, "bad-op")
   | "oracle" :: "fired" :: rest =>
@@ -111,7 +117,7 @@ def step (st : St) (toks : List String) : St × String :=
     | some got, some fr =>
       let want := if st.specFired then "1" else "0"
       if got != want then (st, s!"false want-fired={want}")
-      else if st.specFired && fr != showOptJ st.specFr then (st, s!"false want-fr={showOptJ st.specFr}")
+      else if st.specFired && st.specFrDefined && fr != showOptJ st.specFr then (st, s!"false want-fr={showOptJ st.specFr}")
       else (st, "true")
     | _, _ => (st, "bad-op")
   | "oracle" :: "snap" :: rest =>
